@@ -5,7 +5,7 @@
  * lib/tzmap.c is included with -DSTANDALONE (the repository's own compiler, cmd_cc, is
  * reached through its main(), renamed) and with mmap replaced by an exact-size heap copy.
  * Model state = one key of one source.  Sources: every sorted set of <= K keys out of
- * {A AA AAB AB B BA XETR} x zone names from {X XY Y/Z Europe/Berlin} in every assignment.
+ * {A AA AAAAA AAAAAAAA AAAAAAAAAAAA AAAAAAAAB AAB AB B BA XETR} x zone names from {X XY Y/Z Europe/Berlin} in every assignment.
  * Per source: compile (forked child), then
  *   functional: look up every key of the universe + "" + prefixes/extensions/outsiders in the
  *               compiled image: present key -> exactly its zone string; absent key -> NULL
@@ -68,13 +68,17 @@ verif_munmap(void *p, size_t len)
 #include "explore.h"
 #include "c19_common.h"
 
-#define NKEYS	7
-static const char *const keys[NKEYS] = {"A", "AA", "AAB", "AB", "B", "BA", "XETR"};	/* ascending */
+#define NKEYS	11
+/* ascending; short keys with prefix relations, and keys of 5, 8, 9 and 12 bytes (2, 2, 3 and 3 words of the record) */
+static const char *const keys[NKEYS] = {"A", "AA", "AAAAA", "AAAAAAAA", "AAAAAAAAAAAA", "AAAAAAAAB", "AAB", "AB", "B", "BA", "XETR"};
 #define NZONES	4
 static const char *const zones[NZONES] = {"X", "XY", "Y/Z", "Europe/Berlin"};
-#define NLOOK	19
+#define NLOOK	31
 static const char *const looks[NLOOK] = {
-	"A", "AA", "AAB", "AB", "B", "BA", "XETR", "", "AAA", "AABA", "ABA", "BAA", "X", "XET", "XETRA", "XETS", "Z", "0", "a",
+	"A", "AA", "AAAAA", "AAAAAAAA", "AAAAAAAAAAAA", "AAAAAAAAB", "AAB", "AB", "B", "BA", "XETR",
+	"", "AAA", "AABA", "ABA", "BAA", "X", "XET", "XETRA", "XETS", "Z", "0", "a",
+	/* absent keys around the long ones: prefixes (one word, inside the second word), extensions, same first word(s), greater */
+	"AAAA", "AAAAAA", "AAAAAAA", "AAAAAAAAA", "AAAAAAAAC", "AAAAB", "AAAAAAAAAAAAA", "C",
 };
 
 /* the source in flight */
@@ -90,7 +94,7 @@ static int g_verbose;
 static long
 nsources(int nk)
 {
-	static const long choose[5] = {1, 7, 21, 35, 35};
+	static const long choose[5] = {1, 11, 55, 165, 330};
 	long a = 1;
 	for (int i = 0; i < nk; i++) {
 		a *= NZONES;
@@ -230,7 +234,7 @@ compile_crashed(long idx, int how, int sig, const char *report)
 		char cas[128];
 		long code = 0;
 		for (int i = 0; i < src_nk; i++) {
-			code = code * 28 + src_key[i] * 4 + src_zone[i];
+			code = code * (NKEYS * 4) + src_key[i] * 4 + src_zone[i];
 		}
 		snprintf(cas, sizeof(cas), "%d %ld -1", src_nk, code);
 		ex_viol(key, src_nk, cas, NULL, "tzmap cc on the source [%s] ends abnormally (%s)", line, how == C19_ASAN ? report : "signal/exit");
@@ -293,13 +297,15 @@ mk_variant(long v, char *what, size_t wsz, char *kind, size_t ksz, double *ord)
 
 static tzmap_t g_m;
 static const char *g_res;
+/* lookups that did not return on the well-formed image of the source in flight (shared with the children) */
+static volatile uint8_t *pristine_hang;
 
 static void
 case_string(long v, char *cas, size_t csz)
 {
 	long code = 0;
 	for (int i = 0; i < src_nk; i++) {
-		code = code * 28 + src_key[i] * 4 + src_zone[i];
+		code = code * (NKEYS * 4) + src_key[i] * 4 + src_zone[i];
 	}
 	snprintf(cas, csz, "%d %ld %ld", src_nk, code, v);
 }
@@ -343,6 +349,12 @@ variant_case(long v)
 	C19_INC(c_opened);
 	for (int li = 0; li < NLOOK; li++) {
 		const char *q = looks[li], *e = expected(q);
+		C19_CTR(c_skiph, "lookups_not_repeated_on_corrupted_images(do not return on the well-formed image)");
+		if (v != 0 && pristine_hang[li]) {
+			/* reported once, on the well-formed image */
+			C19_INC(c_skiph);
+			continue;
+		}
 		C19_INC(c_eval);
 		c19->phase = PH_FIND;
 		g_res = NULL;
@@ -351,10 +363,40 @@ variant_case(long v)
 		EX_GUARD_END;
 		if (rc) {
 			if (v == 0) {
-				snprintf(key, sizeof(key), "tzmap lookup does-not-return key='%s' nkeys=%d", q, src_nk);
-				c19_viol(key, src_nk, cas, "map of [%s]: tzm_find('%s') does not return", line, q);
+				int longkey = 0;
+				C19_CTR(c_conf, "hangs_confirmed_with_long_limit");
+				C19_CTR(c_phang, "lookups_in_wellformed_maps_that_do_not_return");
+				for (int i = 0; i < src_nk; i++) {
+					longkey |= strlen(keys[src_key[i]]) > 4;
+				}
+				if (pristine_hang[2048] == 0) {
+					/* the first of this worker: once more with a limit of 1 s of CPU time */
+					int save = zc_wd_limit;
+					zc_wd_limit = 250;
+					EX_GUARD_BEGIN(rc);
+					g_res = tzm_find(g_m, q);
+					EX_GUARD_END;
+					zc_wd_limit = save;
+					if (!rc) {
+						fprintf(stderr, "c19_tzmap: a lookup reported as not returning returned within 1 s\n");
+						_exit(3);
+					}
+					C19_INC(c_conf);
+					pristine_hang[2048] = 1;	/* survives the per-source reset and the folding of the counters */
+				}
+				C19_INC(c_phang);
+				pristine_hang[li] = 1;
+				snprintf(key, sizeof(key), "tzmap lookup does-not-return lookup=%s%s%s source-has-key-over-4-bytes=%d nkeys=%d", e ? "present" : "absent",
+					 e ? "" : " ", e ? "" : absent_relation(q), longkey, src_nk);
+				c19_viol(key, src_nk, cas, "map of [%s] (well-formed, %zu bytes): tzm_find('%s') does not return", line, clen, q);
+				if (g_verbose) {
+					printf("  FAIL tzm_find('%s') does not return\n", q);
+				}
 			} else {
+				/* reading: on a corrupted image a search that never ends neither leaves the image nor crashes; counted,
+				 * and the variant is left (every further lookup would cost another watchdog period) */
 				C19_INC(c_hang);
+				break;
 			}
 			continue;
 		}
@@ -472,6 +514,15 @@ main(int argc, char *argv[])
 	c19_ctr_id("lookups_in_corrupted_maps_that_do_not_return(counted, not reported)");
 	c19_ctr_id("present_key_lookups");
 	c19_ctr_id("absent_key_lookups");
+	c19_ctr_id("hangs_confirmed_with_long_limit");
+	c19_ctr_id("lookups_in_wellformed_maps_that_do_not_return");
+	c19_ctr_id("lookups_not_repeated_on_corrupted_images(do not return on the well-formed image)");
+	pristine_hang = mmap(NULL, 4096, PROT_READ | PROT_WRITE, MAP_SHARED | MAP_ANONYMOUS, -1, 0);
+	if (pristine_hang == MAP_FAILED) {
+		return 3;
+	}
+	/* a search in a map of a few dozen bytes takes well under a microsecond: 4..8 ms of CPU time without returning is a hang */
+	zc_wd_limit = 1;
 	if (rundir == NULL) {
 		rundir = "/tmp";
 	}
@@ -487,9 +538,9 @@ main(int argc, char *argv[])
 		}
 		src_nk = nk;
 		for (int i = nk - 1; i >= 0; i--) {
-			src_key[i] = (int)(code % 28) / 4;
+			src_key[i] = (int)(code % (NKEYS * 4)) / 4;
 			src_zone[i] = (int)(code % 4);
-			code /= 28;
+			code /= NKEYS * 4;
 		}
 		g_verbose = 1;
 		n0 = ex.nviol;
@@ -551,28 +602,41 @@ main(int argc, char *argv[])
 
 	kfun = ex.thorough ? 4 : 3;
 	kflt = ex.thorough ? 3 : 2;
-	ex_meta("rule", "zone maps: every sorted set of <= %d keys out of {A AA AAB AB B BA XETR} x zones from {X XY Y/Z Europe/Berlin} in every assignment, compiled by the "
+	ex_meta("rule", "zone maps: every sorted set of <= %d keys out of {A AA AAAAA AAAAAAAA AAAAAAAAAAAA AAAAAAAAB AAB AB B BA XETR} x zones from {X XY Y/Z Europe/Berlin} in every assignment, compiled by the "
 		"repository's own compiler (lib/tzmap.c cmd_cc through its main(), in a forked child); in the compiled image %d lookups (all 7 keys, \"\", prefixes, extensions, "
 		"outsiders): present key -> exactly its zone string, absent key -> NULL; for sources of <= %d keys additionally the image truncated at every length and its off field "
 		"set to {0,1,n-1,n+1,255,256,65536,2^31-1,2^32-1}: tzm_open + all lookups with no AddressSanitizer report and no fatal signal (image = exact-size heap block). "
-		"A lookup in a corrupted map that does not return is counted only. non-trivial = lookups of absent keys that are prefixes/extensions of present ones, and of present keys "
+		"A lookup that does not return in a well-formed compiled map is a violation (the key is neither found nor reported absent); in a corrupted map it is counted only "
+		"(it neither leaves the image nor crashes) and ends that image's lookups. non-trivial = lookups of absent keys that are prefixes/extensions of present ones, and of present keys "
 		"whose zone name is a proper prefix of a zone name compiled earlier", kfun, NLOOK, kflt);
-	ex_meta("bound", "%s: functional oracle for all sources of <= %d keys, fault images for all sources of <= %d keys", ex.thorough ? "thorough" : "quick", kfun, kflt);
+	ex_meta("bound", "%s: functional oracle for all sources of <= %d keys, fault images for all sources of <= %d keys; sources of exactly %d keys (functional) resp. %d keys (faults) only with every key "
+		"mapped to the first zone", ex.thorough ? "thorough" : "quick", kfun, kflt, kfun, kflt);
 
 	for (int nk = 0; nk <= kfun && !ex_expired(); nk++) {
 		long ns = nsources(nk);
-		for (long si = 0; si < ns && !ex_expired(); si++, slice++) {
-			if (!ex_mine(slice)) {
+		for (long si = 0; si < ns && !ex_expired(); si++) {
+			mk_source(nk, si);
+			{
+				/* the largest sources only with all keys on the first zone (the records' layout depends on the keys) */
+				int zsum = 0;
+				for (int i = 0; i < nk; i++) {
+					zsum += src_zone[i];
+				}
+				if (nk == kfun && zsum) {
+					continue;
+				}
+				faults_p = nk < kflt || (nk == kflt && zsum == 0);
+			}
+			if (!ex_mine(slice++)) {
 				continue;
 			}
-			mk_source(nk, si);
 			if (compile_source() < 0) {
 				++*c_nocomp;
 				continue;
 			}
 			++*c_srcs;
-			faults_p = nk <= kflt;
 			nvariants = faults_p ? (long)clen + 1 + 9 : 1;
+			memset((void*)pristine_hang, 0, NLOOK);
 			c19_batch(nvariants, variant_case, variant_crashed);
 			*c_states += (uint64_t)src_nk + 1;
 			++*c_traces;
